@@ -367,7 +367,11 @@ def gen_c09(tier, R, off):
                     for d in C09_EXTREMES:
                         out.append(bi(off, n, [a, c, d]))
     pool = C09_POOL
+    # the sub-pool for all ordered pairs: a stride sample plus the values no pair family may lack (empty text / array, zero, negative, NaN, infinities, a non-ASCII text)
     small = POOL[::5] + C09_EXTRA[::2]
+    for v in [s(""), s("a"), s("äb"), arr(), num(0.0), num(-1.0), num(1.0), num(NAN), num(INF), num(-INF), b(False), arr(num(1.0), s("1"), b(True))]:
+        if v not in small:
+            small.append(v)
     for n in names:
         if n in ('random', 'choice') and False:
             continue
